@@ -87,12 +87,23 @@ RefAgree(g, near, x, rc, ro) ==
 (* second one is only evaluated when the regression switch separates them  *)
 OpsU == IF SwapIn = "" THEN {"AN"} ELSE {"AN", "A"}
 
+(* SwapIn = "": phase 1 depends on (AssocClass, Role) only; it is evaluated *)
+(* once per pair and shared by all (ResultClass, ResultRole) (same values   *)
+(* as ImplAssocOp, fewer TLC evaluations)                                   *)
 ImplEqualsDecl ==
   LET g == G IN
   \A x \in Nodes :
      LET near == Touching(g, x) IN
-     /\ \A ac \in AcU, rc \in RcU, ro \in RlU, rr \in RlU, op \in OpsU :
-           AssocAgree(g, near, op, x, ac, rc, ro, rr)
+     /\ IF SwapIn = ""
+        THEN \A ac \in AcU, ro \in RlU :
+               LET refs == ImplRefPaths(g, x, ac, ro)
+                   nearac == {b \in near : ClassOk(b.cls, ac)} IN
+               \A rc \in RcU, rr \in RlU :
+                  IF BadFilterClass(ac, rc) THEN AqMayErr(ac, rc, ro, rr)
+                  ELSE ImplPhase2(g, x, rc, rr, refs) \ {x}
+                         = AssocsVia(g, nearac, x, "", rc, ro, rr) \ {x}
+        ELSE \A ac \in AcU, rc \in RcU, ro \in RlU, rr \in RlU, op \in OpsU :
+               AssocAgree(g, near, op, x, ac, rc, ro, rr)
      /\ \A rc \in AcU, ro \in RlU : RefAgree(g, near, x, rc, ro)
 
 (*--------------- laws of the requirement itself --------------------------*)
